@@ -20,6 +20,7 @@ RULE = ('bra/ket pairs with independent bond profiles and every sector-consisten
         'for the local problems every site position x {one-site, two-site, zero-site} x Hermitian / non-Hermitian operator; '
         'non-trivial = all operands non-zero with a bond of dimension >= 2')
 BUDGET = {'quick': 400, 'thorough': 3600}
+SITE_DT = ['mwm', 'fvc', 'wmw', 'mmr', 'rwm', 'vfv']
 
 
 def _scalar_cases(Ls, qds, Ds, dts):
@@ -132,8 +133,11 @@ def run_case(case, ctx):
     kind = case[0]
     if kind == 'scalars':
         _, qd, qa, qb, ops, dt = case
-        chi = mk_mps(ctx, 0, qd, qa, dt[0] == 'r')
-        psi = mk_mps(ctx, 1, qd, qb, dt[1] == 'r')
+        # dtype codes: r real, c complex, m / w dtype varying from site to site (props.c03._site_dtypes); optional third letter: operator
+        code = {'r': True, 'c': False}
+        chi = mk_mps(ctx, 0, qd, qa, code.get(dt[0], dt[0]))
+        psi = mk_mps(ctx, 1, qd, qb, code.get(dt[1], dt[1]))
+        opcode = code.get(dt[2], dt[2]) if len(dt) > 2 else False
         vc, vp = vec(chi), vec(psi)
         ctx.nontrivial = bool(np.any(vc) and np.any(vp)) and max(map(len, qa + qb)) >= 2
         ctx.cls(f'scalars:L={len(qa)-1}')
@@ -141,7 +145,7 @@ def run_case(case, ctx):
         ctx.close(norm(psi), np.sqrt(np.sum(np.abs(vp) ** 2)), 'norm_dense')
         ctx.calls += 2
         for k, qo in enumerate(ops):
-            op = mk_mpo(ctx, 10 + k, qd, qo, False)
+            op = mk_mpo(ctx, 10 + k, qd, qo, opcode)
             M = mat(op)
             ctx.close(operator_average(psi, op), vp.conj() @ M @ vp, 'expectation_value_dense')
             ctx.close(operator_inner_product(chi, op, psi), vc.conj() @ M @ vp, 'matrix_element_dense')
@@ -245,6 +249,8 @@ def spaces(tier, seed):
         return [
             Space('scalars', core.chunked(_scalar_cases([1, 2, 3], qds, [1, 2], ['cc', 'rc', 'cr']), 200), run_case=run_case, sig=sig,
                   bounds={'L': [1, 2, 3], 'qd': qds, 'D': [1, 2], 'dtypes': ['cc', 'rc', 'cr'], 'operators_per_pair': 5}),
+            Space('scalars_site_dtypes', core.chunked(_scalar_cases([3], qds[:2], [1, 2], SITE_DT[:2]), 200), run_case=run_case, sig=sig,
+                  bounds={'L': [3], 'qd': qds[:2], 'D': [1, 2], 'dtypes (bra, ket, operator; m/w vary from site to site, f/v column-major / strided views)': SITE_DT[:2]}),
             Space('density', core.chunked(_density_cases([1, 2], [[0, 1], [0, 0]]), 200), run_case=run_case, sig=sig,
                   bounds={'L': [1, 2], 'D': [1, 2]}),
             Space('local_problems', core.chunked(_local_cases([1, 2, 3], [[0, 1], [0, 0]], [1, 2]), 20), run_case=run_case, sig=sig,
@@ -254,6 +260,8 @@ def spaces(tier, seed):
     return [
         Space('scalars', core.chunked(_scalar_cases([1, 2, 3], qds, [1, 2, 3], ['cc', 'rc', 'cr', 'rr']), 200), run_case=run_case, sig=sig,
               bounds={'L': [1, 2, 3], 'qd': qds, 'D': [1, 2, 3], 'dtypes': ['cc', 'rc', 'cr', 'rr']}),
+        Space('scalars_site_dtypes', core.chunked(itertools.chain(_scalar_cases([3], qds, [1, 2], SITE_DT), _scalar_cases([4], qds[:1], [1, 2], SITE_DT[:1])), 200), run_case=run_case, sig=sig,
+              bounds={'L': '3; 4 with qd=[0,1] and the first dtype triple', 'qd': qds, 'D': [1, 2], 'dtypes (bra, ket, operator; m/w vary from site to site, f/v column-major / strided views)': SITE_DT}),
         Space('density', core.chunked(_density_cases([1, 2, 3], [[0, 1], [0, 0]]), 200), run_case=run_case, sig=sig,
               bounds={'L': [1, 2, 3], 'D': [1, 2]}),
         Space('local_problems', core.chunked(_local_cases([1, 2, 3], [[0, 1], [1, -1], [0, 0]], [1, 2]), 20), run_case=run_case, sig=sig,
